@@ -115,6 +115,10 @@ def mon_c03(run: Run, p: Problem, kw) -> List[Dict[str, Any]]:
         pts = [np.asarray(ck.x, dtype=float) if ck is not None else np.clip(np.asarray(kw["x0"], dtype=float), p.lb, p.ub)]
         pts += [np.asarray(e["state"].x, dtype=float) for e in run.rec.cb] + [np.asarray(run.result.x, dtype=float)]
         tv = [float(np.real(p.fun(q.copy()))) for q in pts]
+        if not np.isnan(tv[0]) and any(np.isnan(tv[1:])):
+            bad0.append({"what": "the objective is NaN at an accepted iterate although it is finite at the start (a NaN trial value is not lower "
+                                 "than the value it is compared with)", "key": "",
+                         "detail": {"values": tv[:6], "first_nan_at": int(np.argmax(np.isnan(tv))), "message": run.result.message}})
         if not any(np.isnan(tv)):
             for i, (a, b) in enumerate(zip(tv, tv[1:])):
                 if b > a:
